@@ -11,11 +11,20 @@ SPEC = {'level': 'exploration',
             gen('vh_c63', 'c63_signals_tsan', 16, 1600, cfg='tsan', workers_quick=4, workers_thorough=8, min_cases_quick=4, replays_needed=2, replays_total=5,
                 rule='same target in the ThreadSanitizer build (any TSan / lock-order report is a failure)')]}
 
-# VERIF_NO_TSAN=1 drops the ThreadSanitizer stages (used for sensitivity runs of mutants that only the differential/log oracle can see:
-# a header mutant would otherwise rebuild both trees)
+# ThreadSanitizer stages: they need the tsan tree (build/tsan). bin/setup.sh builds only the san tree and check.py configures/builds a stage's tree on
+# demand through its 'cfg' - a cold tsan tree costs 10+ minutes, which a quick tier cannot afford. So the tsan stages run in the THOROUGH tier;
+# `VERIF_TSAN_QUICK=1 ./check CNN quick` runs them in the quick tier as well (sized for it: few cases, 4 workers). check.py builds the tree of every
+# listed stage whatever its tier, hence the stages are removed from the list (not just tier-tagged) for a plain quick run.
+# VERIF_NO_TSAN=1 drops them always (sensitivity runs of mutants that only the differential/log oracle can see).
 import os as _os
-if _os.environ.get('VERIF_NO_TSAN'):
+import sys as _sys
+_tier = _sys.argv[2] if len(_sys.argv) > 2 else ''
+if _os.environ.get('VERIF_NO_TSAN') or (_tier == 'quick' and not _os.environ.get('VERIF_TSAN_QUICK')):
     SPEC['stages'] = [_st for _st in SPEC['stages'] if _st.get('cfg') != 'tsan']
+elif not _os.environ.get('VERIF_TSAN_QUICK'):
+    for _st in SPEC['stages']:
+        if _st.get('cfg') == 'tsan':
+            _st['tiers'] = ('thorough',)
 
 META = {'level_text': 'Generated histories (mempool submissions incl. chains and replacements, blocks mined from pool subsets with conflicting transactions, overtaking branches of '
                'depth 1-3, branches with an invalid last block, InvalidateBlock/reconsider) run on a real in-process regtest node whose validation callbacks are delivered '
